@@ -1,0 +1,16 @@
+//go:build verif
+
+package hermes
+
+// Exported wrappers of the verification harness (properties C02 / C07) around the unexported
+// nitrogen routines. They add no behaviour.
+
+// VerifNmove calls nmove (convection-dispersion transport, uptake crediting, leaching counters).
+func VerifNmove(wdt float64, subd int, zeit int, g *GlobalVarsMain, l *NitroSharedVars) {
+	nmove(wdt, subd, zeit, g, l)
+}
+
+// VerifMineral calls mineral (first-order decay of the organic pools, fertiliser dissolution).
+func VerifMineral(g *GlobalVarsMain, l *NitroSharedVars) {
+	mineral(g, l)
+}
